@@ -1,4 +1,5 @@
 import CE.Cbe.RoundTrip
+import CE.Cbe.StreamRoundTrip
 import CE.Canon
 /-
   C01 — CBE encode/decode preserves every rules-valid event stream.
@@ -7,11 +8,20 @@ import CE.Canon
     ∀ evs, Rules.accepts cfg evs → NoCustomText evs →
       ∃ back, Cbe.decode (Cbe.encode evs).1 = (back, none) ∧ canon false back = canon false evs
 
-  Proved so far (`…_partial`): the per-event prefix-code round trips, with arbitrary
-  following bytes, for the event kinds listed below; each states both what the decoder
-  emits (`renorm…`) and that it carries the same data (`canon`).  The list-level induction
-  carrying the encoder's array state, floats, decimals, arrays and times are carried by the
-  correspondence + oracle of `bin/check C01` only.
+  Proved:
+  * `structural_document_roundtrip` — the full statement for the structural fragment of the
+    alphabet (containers, Booleans, null, padding, comments, integers of every width and sign in
+    all three event forms, identifiers of markers / references / records / record types, UIDs):
+    for EVERY stream of such events, of any length and nesting, the encoder fails nowhere, the
+    decoder reads the encoder's bytes back without error and to the end, and what it delivers
+    carries the same data (`canon`) — nothing lost, nothing added.  By induction over the stream
+    (CE/Cbe/StreamRoundTrip.lean: `stream_roundtrip`), each step a prefix-code lemma "one decoder
+    step reads back exactly this event and leaves the rest of the input untouched".
+  * the per-event prefix-code round trips for integers, with arbitrary following bytes
+    (`…_partial` below).
+  Not proved (`_partial`): floats, decimals, numbers beyond 64 bits, times and arrays (the
+  encoder's array state) are carried by the CBE.ENC / CBE.DEC correspondence and the round-trip
+  oracle of `bin/check C01` only.
 -/
 namespace CE.Props.C01
 open CE CE.Cbe
@@ -39,6 +49,19 @@ theorem negInt_roundtrip_partial (st : EncSt) (n : Nat) (h : n < 2 ^ 64) (rest :
   by_cases h0 : n = 0
   · simp [h0, canon]
   · by_cases h1 : n ≤ smallIntMax <;> simp [h0, h1, canon]
+
+/-- every stream of structural events round-trips through CBE: no error, same data -/
+theorem structural_document_roundtrip (evs : List Ev) (h : evs.all simple = true) :
+    let doc := Ev.beginDoc :: Ev.version 0 :: (evs ++ [Ev.endDoc])
+    (encode doc).2 = none ∧
+    ∃ back, decode (encode doc).1 = (back, none) ∧ canon false back = canon false doc :=
+  document_roundtrip evs h
+
+/-- non-vacuity: a nested document with a marker, a reference, a record, integers of several
+    widths and signs, a comment and padding satisfies the hypothesis -/
+example : ([Ev.map, .marker [97], .list, .int (-5), .posInt 70000, .negInt 0, .endContainer, .true_, .refLocal [97],
+            .comment false [120], .padding, .posInt (2 ^ 64 - 1), .record [114, 49], .null, .endContainer,
+            .endContainer] : List Ev).all simple = true := by decide
 
 /-- non-vacuity: the hypotheses are met by boundary values -/
 example : (281474976710656 : Nat) < 2 ^ 64 ∧ renormPos 100 = .int 100 ∧ renormPos 101 = .posInt 101 := by
